@@ -939,6 +939,41 @@ def h4_pagegraph(timeout=200, part=None, **kw):
     return core.run_symx("H4_faults", fn, [PDFPage.create_pages, high_level.extract_text], {"page trees": [str(x) for x in GRAPH_SHAPES], "work bound": "5 s alarm, 2 GiB address-space allowance"}, timeout, concretize=conc, part=part)
 
 
+# ------------------------------------------------------------------------------------------ H4 every byte of a Flate payload corrupted
+def flate_doc(pos, mode):
+    """the 8-object seed document with its content stream Flate-compressed; payload byte `pos` inverted (mode 0), zeroed (1), or the payload cut there (2); pos None: intact"""
+    import zlib
+    objs = seed_objects()
+    payload = zlib.compress(CONTENT * 3, 9)
+    if pos is not None:
+        payload = payload[:pos] + (bytes([payload[pos] ^ 0xFF]) if mode == 0 else b"\0" if mode == 1 else b"") + (payload[pos + 1:] if mode != 2 else b"")
+    objs[5] = Stream({"Filter": "FlateDecode"}, payload)
+    return pdfgen.build(objs)
+
+
+def flate_len():
+    import zlib
+    return len(zlib.compress(CONTENT * 3, 9))
+
+
+def h4_flate(timeout=300, part=None, **kw):
+    from pdfminer import high_level
+    n = flate_len()
+
+    def fn(ex):
+        pos = ex.choice(n, "pos")
+        mode = ex.choice(3, "mode")
+        entry = ENTRIES[ex.choice(2, "entry") * 3]
+        r = run_extract(flate_doc(pos, mode), entry=entry)
+        ex.require(r is None, "content stream /FlateDecode, payload byte %d of %d %s: %s" % (pos, n, ["inverted", "zeroed", "and the rest cut off"][mode], r), pos=pos, mode=mode, entry=entry)
+
+    def conc(m, info):
+        return {"what": "flate", "pos": info["pos"], "mode": info["mode"], "entry": info["entry"]}
+    import pdfminer.pdftypes as pt
+    return core.run_symx("H4_faults", fn, [pt.PDFStream.decode, pt.decompress_corrupted, high_level.extract_text], {"payload": "%d bytes of zlib data, every byte inverted / zeroed / cut" % n, "entry points": "extract_text, extract_pages"},
+                         timeout, concretize=conc, part=part)
+
+
 def replay(harness, inp):
     import pdfminer.pdftypes as pt
     if harness == "H1_accessors":
@@ -1031,6 +1066,9 @@ def replay(harness, inp):
         data, desc = fontfile_fault(inp["kind"], inp["mode"], inp["pos"], inp["v"])
         r = run_extract(fontfile_doc(inp["kind"], data))
         return None if r is None else "%s (%s): %s" % (desc, data.hex(), r)
+    if what == "flate":
+        r = run_extract(flate_doc(inp["pos"], inp["mode"]), entry=inp["entry"])
+        return None if r is None else "content stream /FlateDecode, payload byte %d %s: %s" % (inp["pos"], ["inverted", "zeroed", "and the rest cut off"][inp["mode"]], r)
     if what == "pagegraph":
         shape, n, k = GRAPH_SHAPES[inp["si"]]
         r = run_extract(pagegraph_doc(shape, n, k), entry=inp["entry"])
@@ -1092,6 +1130,7 @@ def jobs(tier):
     J.append(Job("H4_encrypt", "h4_encrypt", {}, 300, "H4_faults"))
     J.append(Job("H4_huge", "h4_huge", {}, 300, "H4_faults"))
     J.append(Job("H4_pagegraph", "h4_pagegraph", {}, 300, "H4_faults"))
+    J.append(Job("H4_flate", "h4_flate", {}, 300, "H4_faults"))
     J.append(Job("H5_cmap", "h5_cmap", {}, 300, "H5_content"))
     for k in range(2):
         J.append(Job("H5_fontfile:%d" % k, "h5_fontfile", {"part": [k, 2, 4]}, 300, "H5_content"))
